@@ -26,7 +26,7 @@ MANIFEST_INFO = {
     "engine": "B",
     "design_ref": "DESIGN.md section 5, C08",
     "technique": "exhaustive enumeration of well-formed TestResult call histories (startTestRun, tags, time, startTest, six outcomes as exc_info / reason / four details shapes, stopTest, progress, stopTestRun, stop, done; TestCase and PlaceHolder/ErrorHolder tests) x every adapter stack of depth 1..3 over five target flavours, each history replayed on fresh real objects; per-target expected log derived from the documented degradation table",
-    "level_text": "For every stack of ExtendedToOriginalDecorator / MultiTestResult (1-2 branches) / TestResultDecorator / Tagger of depth <= 2 (quick) / 3 (thorough) over 2.6-style, 2.7-style, extended, Twisted-style and testtools.TestResult targets, plus TestByTestResult, and every history of <= 2 (quick) / 3 (thorough, reduced alphabet) tests over 58 test variants, every innermost target's log is projected onto startTest/outcome/stopTest and compared with the reported sequence mapped through the degradation table (exactly once, in order, nothing extra), details-to-text containment, unchanged details for extended targets, Tagger tags inside the test, one TestByTestResult callback per test with its times/tags/details/status, and no failing outcome delivered as a passing one.",
+    "level_text": "For every stack of ExtendedToOriginalDecorator / MultiTestResult (1-2 branches) / TestResultDecorator / Tagger of depth <= 2 (quick) / 3 (thorough) over 2.6-style, 2.7-style, extended, Twisted-style and testtools.TestResult targets, plus TestByTestResult, and every history of <= 2 (quick) / 3 (thorough, reduced alphabet) tests over 58 test variants, every innermost target's log is projected onto startTest/outcome/stopTest and compared with the reported sequence mapped through the degradation table (exactly once, in order, nothing extra), details-to-text containment, unchanged details for extended targets, Tagger tags inside the test, one TestByTestResult callback per test with its times (the second test's clock is set back while it runs)/tags/details/status, one startTestRun/stopTestRun per run at every target (stop() and done() after it are no further runs), and no failing outcome delivered as a passing one.",
     "level_note": "Non-extended targets always sit directly under an ExtendedToOriginalDecorator or MultiTestResult (TestResultDecorator/Tagger pass details= through unchanged by design); for unexpected success TestByTestResult's status word may be 'success' (as documented) or a failing word.",
 }
 
